@@ -414,7 +414,7 @@ def trees(ctx: Ctx) -> Iterator[Tuple[str, str]]:
             if regex is not None:
                 yield retree_wire.enc(regex), "corpus"
     yield from enumerated()
-    for i in range(ctx.n(1200, 40000)):
+    for i in range(ctx.n(1200, 15000)):
         g = G(ctx.rng, clean=(i % 4 != 0))
         yield wire_of(g.regex()), ("random-clean" if g.clean else "random-any")
 
@@ -650,6 +650,7 @@ def judge(ctx: Ctx, p: str, strings: Optional[List[str]] = None, n_random: int =
     res["status"] = "ok"
     res["wire"] = retree_wire.enc(regex)
     facts = tree_facts(regex)
+    res["unclean"] = facts["dot_or_compl"] or facts["surrogates"]
     if strings is None:
         strings = strings_for(ctx, regex, facts, n_random)
     desugared: Any = None  # lazily: (compiled original-desugared, compiled fixed-desugared) or False
@@ -767,6 +768,8 @@ def _run(ctx: Ctx, with_model: bool) -> None:
     lines: List[str] = []
     idx: List[int] = []
     results = []
+    pending: List[Tuple[Any, str, str]] = []
+    clear_witness = False
     for i, (p, stream, w) in enumerate(texts):
         res = judge(ctx, p, n_random=n_strings)
         results.append(res)
@@ -775,13 +778,24 @@ def _run(ctx: Ctx, with_model: bool) -> None:
         ctx.hit("strings-checked", res["checked"])
         ctx.hit("strings-matched", res["matched"])
         for sig, what, s in res["failures"]:
-            ctx.fail({"pattern": p, "string": s, "p": enc_text(p), "s": None if s is None else enc_text(s)}, what, sig)
+            inp = {"pattern": p, "string": s, "p": enc_text(p), "s": None if s is None else enc_text(s)}
             ctx.hit("oracle:" + sig)
+            if sig == "C17:language-differs" and res.get("unclean"):
+                # an unexplained difference on a pattern that also has `.`/`[^…]`/surrogates: reported only
+                # if no clearer witness (a pattern without them) turns up in this run
+                pending.append((inp, what, sig))
+                continue
+            if sig not in (SIG_F1, SIG_F2):
+                clear_witness = True
+            ctx.fail(inp, what, sig)
         if i % 301 == 0:
             ctx.sample({"pattern": p, "fixed": res["fixed"], "status": res["status"], "strings": res["checked"]})
         if with_model and res.get("wire") is not None:
             lines.append("fix " + res["wire"])
             idx.append(i)
+    if not clear_witness:
+        for inp, what, sig in pending:
+            ctx.fail(inp, what, sig)
     if with_model and lines:
         mouts = ctx.model(lines)
         for i, m in zip(idx, mouts):
